@@ -68,15 +68,58 @@ def run(ctx):
     for hs in hseeds:
         for j, (a, b) in enumerate(zip(chunks(pcs, nw), chunks(pds, nw))):
             pl.append((hs, {"pc": a, "pdag": b, "seed": ctx.seed * 100 + hs * 8 + j}))
+    skel_traces = []
     for res in run_workers(ctx, "c12", "replay_gen", pl):
         ctx.traces += res["n"]
         ctx.evaluations += res["calls"]
+        skel_traces += res.get("skel_traces", [])
         for fl in res["fails"]:
             ctx.violation(fl)
+    validate_skeleton(ctx, skel_traces)
+
+
+def validate_skeleton(ctx, traces):
+    """RECORD -> VALIDATE: the logged CI queries of build_skeleton against the skeleton machine (Trace_C12.tla)"""
+    if not traces:
+        return
+    for i, t in enumerate(traces):
+        t["tid"] = i + 1
+    tf = os.path.join(ctx.work, "trace_c12.json")
+    with open(tf, "w") as f:
+        json.dump([{k: t[k] for k in ("tid", "nodes", "edges", "variant", "maxcond", "events")} for t in traces], f)
+    r = ctx.tlc("Trace_C12", "INIT Init\nNEXT Next\nINVARIANT Report\n", env={"TRACE_FILE": tf}, tag="Trace_skel", coverage=True, timeout=7200)
+    by = {t["tid"]: t for t in traces}
+    seen = set()
+    for p in r.prints:
+        tid, v = p["tid"], p["v"]
+        seen.add(tid)
+        t = by[tid]
+        if v["clause"] == "ACCEPT":
+            ctx.traces += 1
+            continue
+        e = t["events"][v["l"] - 1]
+        ctx.violation({"api": "PC.build_skeleton", "clause": v["clause"], "features": {"variant": t["variant"], "route": "callable"},
+                       "case": {"kind": "skel", "expected": t["case"], "seed": t["seed"], "hashseed": t["hashseed"], "config": [t["variant"], "callable"]},
+                       "observed": {"event_index": v["l"], "event": {k: e[k] for k in e if k not in ("skeleton", "seps")},
+                                    "queries_before": [[q["x"], q["y"], q["z"], q["ans"]] for q in t["events"][max(0, v["l"] - 6):v["l"] - 1] if q["ev"] == "query"]},
+                       "expected": "a behaviour of spec/MC_PCSkel.tla (see spec/Trace_C12.tla)"})
+    if seen != set(by):
+        raise Machinery(f"Trace_C12: verdicts missing for {len(set(by) - seen)} traces")
+    ctx.extra["skeleton_traces"] = len(traces)
+    ctx.extra["ci_queries_validated"] = sum(len(t["events"]) - 1 for t in traces)
+    ctx.sample({"kind": "skeleton_trace", "edges": traces[len(traces) // 2]["edges"], "variant": traces[len(traces) // 2]["variant"],
+                "events": traces[len(traces) // 2]["events"][:5]})
 
 
 def replay(ctx, rec):
     c = rec["case"]
+    if c["kind"] == "skel":
+        res = run_workers(ctx, "c12", "replay_gen", [(c["hashseed"], {"pc": [c["expected"]], "pdag": [], "seed": c["seed"], "force": c.get("config")})])[0]
+        n0 = len(ctx.violations)
+        for fl in res["fails"]:
+            ctx.violation(fl)
+        validate_skeleton(ctx, res.get("skel_traces", []))
+        return ctx.violations[n0:][:1] or None
     key = "pc" if c["kind"] == "pc" else "pdag"
     res = run_workers(ctx, "c12", "replay_gen", [(c["hashseed"], {"pc": [], "pdag": [], key: [c["expected"]], "seed": c["seed"],
                                                                  "force": c.get("config")})])[0]
@@ -90,6 +133,20 @@ def selftest(ctx):
     res = run_workers(ctx, "c12", "replay_gen", [(0, {"pc": [c], "pdag": [], "seed": 1})])[0]
     if not res["fails"]:
         raise Machinery("selftest: wrong CPDAG expectation accepted")
+    # the skeleton trace spec must reject a trace with one CI query removed and one with a set outside the adjacency
+    good = next(c for c in r.prints if len(c["edges"]) == 2)
+    res = run_workers(ctx, "c12", "replay_gen", [(0, {"pc": [good], "pdag": [], "seed": 1})])[0]
+    tr = [t for t in res["skel_traces"] if t["variant"] == "stable"][:1]
+    t1, t2 = json.loads(json.dumps(tr[0])), json.loads(json.dumps(tr[0]))
+    q1 = next(e for e in t1["events"] if e["ev"] == "query" and not e["ans"])
+    t1["events"] = [e for e in t1["events"] if not (e["ev"] == "query" and {e["x"], e["y"]} == {q1["x"], q1["y"]} and e["z"] == q1["z"])]
+    q2 = next(e for e in t2["events"] if e["ev"] == "query" and len(e["z"]) == 1)
+    q2["z"] = [q2["x"]]
+    validate_skeleton(ctx, [tr[0], t1, t2])
+    cl = sorted(v["clause"] for v in ctx.violations)
+    if len(ctx.violations) != 2:
+        raise Machinery(f"selftest: corrupted skeleton traces: {cl}")
+    ctx.violations.clear()
 
 
 # =========================================================================== worker side
@@ -103,6 +160,7 @@ def replay_gen(payload):
     rng = random.Random(payload["seed"])
     hs = int(os.environ.get("PYTHONHASHSEED", "0"))
     fails, ncalls = [], 0
+    skel_traces = []
     for case in payload["pc"]:
         nodes = case["nodes"]
         vn = var_names(nodes, rng, "str")
@@ -111,8 +169,9 @@ def replay_gen(payload):
         queries = []
 
         def oracle(X, Y, Z, **kw):
-            queries.append((inv[X], inv[Y], tuple(sorted(inv[z] for z in Z))))
-            return (frozenset((inv[X], inv[Y])), frozenset(inv[z] for z in Z)) in indep
+            ans = (frozenset((inv[X], inv[Y])), frozenset(inv[z] for z in Z)) in indep
+            queries.append({"ev": "query", "x": inv[X], "y": inv[Y], "z": sorted(inv[z] for z in Z), "ans": ans})
+            return ans
         skel_exp = {frozenset(e) for e in case["skeleton"]}
         cp_dir = {tuple(e) for e in case["cpdag"]["dir"]}
         cp_und = {frozenset(e) for e in case["cpdag"]["und"]}
@@ -142,7 +201,14 @@ def replay_gen(payload):
                 kw = dict(ci_test="independence_match")
             try:
                 ncalls += 3
+                del queries[:]
                 skel, seps = est.build_skeleton(variant=variant, max_cond_vars=len(nodes), n_jobs=1, show_progress=False, **kw)
+                if route == "callable":
+                    skel_traces.append({"nodes": nodes, "edges": case["edges"], "variant": variant, "maxcond": len(nodes), "case": case,
+                                        "seed": payload["seed"], "hashseed": hs,
+                                        "events": list(queries) + [{"ev": "final", "skeleton": [[inv[u], inv[v]] for u, v in skel.edges()],
+                                                                    "seps": [{"x": sorted(inv[x] for x in k)[0], "y": sorted(inv[x] for x in k)[-1],
+                                                                              "s": sorted(inv[z] for z in S)} for k, S in seps.items()]}]})
                 pdag = est.estimate(variant=variant, max_cond_vars=len(nodes), return_type="cpdag", n_jobs=1, show_progress=False, **kw)
                 dag = est.estimate(variant=variant, max_cond_vars=len(nodes), return_type="dag", n_jobs=1, show_progress=False, **kw)
             except Exception as ex:  # noqa
@@ -210,4 +276,4 @@ def replay_gen(payload):
             fails.append({"api": "PDAG.to_dag", "clause": cl, "features": feat,
                           "case": {"kind": "pdag", "expected": case, "seed": payload["seed"], "hashseed": hs},
                           "observed": sorted(got), "expected": case["ext"][:3]})
-    return {"n": len(payload["pc"]) + len(payload["pdag"]), "calls": ncalls, "fails": fails[:80]}
+    return {"n": len(payload["pc"]) + len(payload["pdag"]), "calls": ncalls, "fails": fails[:80], "skel_traces": skel_traces}
